@@ -439,9 +439,15 @@ class Simulator:
                 if 0 < end - n["b"] < 200:
                     try:
                         ce = cx.parse(self.c.text(n["b"], end))
-                        self._scan_cond(ce, loc, {}, set(), set(), False)
+                        self._scan_cond(ce, loc, flags, set(), set(), False)
                     except cx.ParseError:
                         pass
+        # character comparisons anywhere in the body (assignments, arguments)
+        import re
+        if self.fn.get("b") is not None and self.fn.get("e") is not None:
+            for mm in re.finditer(r"\b([A-Za-z_]\w*)\s*[!=]=\s*'(.)'", self.c.text(self.fn["b"], self.fn["e"])):
+                if loc.get(mm.group(1), "") in ("char", "int"):
+                    flags.setdefault(mm.group(1), set()).add(mm.group(2))
         # flags: only characters with a validated value set
         flags = {k: sorted(v) for k, v in flags.items() if v}
         return flags, sorted(signs), sorted(ptrs)
@@ -612,6 +618,18 @@ class Simulator:
             for c in cf.walk(st):
                 if c.get("k") == "CallExpr":
                     self._call(c, facts, in_threads, path)
+            # locals initialised with a condition that the case decides (`int rs = (trans == 'N' || ..)`)
+            for vd in st.get("c", []):
+                if vd.get("k") == "VarDecl" and vd.get("c") and vd.get("t") in ("int", "char", "_Bool") and vd.get("lo") is not None:
+                    txt = self.c.stmt_text_until_semicolon(vd["lo"])
+                    txt = txt.split(",")[0] if txt.count("(") == txt.split(",")[0].count("(") else txt
+                    if "=" in txt:
+                        try:
+                            v = peval(cx.parse(txt.split("=", 1)[1]), self.case)
+                        except cx.ParseError:
+                            v = None
+                        if v is True or v is False:
+                            self.case.signs[vd["n"]] = 1 if v else 0
             return None
         if k in ("BreakStmt", "ContinueStmt"):
             return None
@@ -712,6 +730,14 @@ class Simulator:
                 facts[:] = [f for f in facts if tgt not in f.idents]
                 if before != len(facts):
                     self.assigned_after_guard.append((tgt, st))
+                if n is st and n.get("k") == "BinaryOperator" and n.get("op") == "=":
+                    e0 = self.stmt_expr(st)
+                    if e0 and e0[0] == "assign" and e0[1] == "=" and e0[2] == ("id", tgt):
+                        v0 = peval(e0[3], self.case)
+                        if v0 is True or v0 is False:
+                            self.case.signs[tgt] = 1 if v0 else 0
+                        elif tgt in self.case.signs and tgt not in self.orig_case.signs:
+                            self.case.signs.pop(tgt, None)
                 # a plain top-level assignment `v = E` (E not mentioning v) gives v == E
                 if n is st and n.get("k") == "BinaryOperator" and n.get("op") == "=":
                     e = self.stmt_expr(st)
